@@ -29,7 +29,12 @@ pub fn p_rewind() -> Profile {
         rules: (2, 6),
         ctx_pct: 15,
         eoi_pct: 0,
-        kinds: KindMix::tokens_only(),
+        kinds: {
+            // tokens, and the `re,` skip form (several skip rules per definition occur)
+            let mut k = KindMix::tokens_only();
+            k.skip = 3;
+            k
+        },
         unnamed_pct: 50,
         allow_empty_sets: false,
     }
@@ -157,6 +162,8 @@ pub fn p_real() -> Profile {
     re.w_diff = 2;
     re.size = 7;
     re.max_set_items = 5;
+    re.extra_atoms = gen::typical_classes();
+    re.w_extra = 10;
     Profile {
         name: "real",
         re,
@@ -353,6 +360,9 @@ impl Prop for C01 {
             // keywords: a longer keyword first, a general rule, a shorter keyword that is a
             // prefix of the first one (ties with the general rule must go to the general rule)
             gen::keyword_prefixes(&mut spec, t.get(1..).unwrap_or(&[]), &ABC);
+        } else if t.first().map(|x| x % 2 == 0).unwrap_or(false) {
+            // one rule of the form `p1 T | p2 T` (alternatives sharing a tail)
+            gen::shared_tails(&mut spec, t.get(1..).unwrap_or(&[]), &['a', 'b', 'c', 'd', 'e', 'f', 'x', 'y']);
         }
         spec
     }
